@@ -11,7 +11,8 @@ QUICK_S = 40
 THOROUGH_S = 600
 RULE = ('a garbage phase (random bytes, corrupted or truncated valid frames, frames for foreign units, lone delimiter '
         'characters, checksum-valid frames whose PDU the decoder cannot digest; <= 600 bytes) on the RTU/ASCII/binary framers, then faults stop and 25-40 valid frames follow, one per '
-        'read or 2-3 per read. Oracle (bounded liveness): with g = offset where the garbage ends and B = 2 x maximum frame '
+        'read or 2-3 per read, in half of the runs interleaved with valid frames for OTHER units (multi-drop bus traffic, '
+        'never to be delivered). Oracle (bounded liveness): with g = offset where the garbage ends and B = 2 x maximum frame '
         'size of the framing, every valid frame that starts at offset >= g+B is delivered exactly once and in order, and the '
         'backlog len(framer._buffer) stays <= B + largest read while valid frames keep arriving. Frames inside the grace '
         'window carry no obligation. The receiving loop either resets the framer when the receive call raises or ignores the '
@@ -70,7 +71,16 @@ def generate(rng, tier, index):
     valid = []
     tot = 0
     # enough valid traffic that >= ~10 frames start beyond the grace window of B bytes
+    # a multi-drop bus also carries (valid) frames for OTHER units between the frames for this receiver: they are
+    # not garbage, they overlap nothing, and must neither be delivered nor cost any frame of this unit
+    foreign_rate = rng.choice([0.0, 0.0, 0.3, 0.5])
+    pool_f = [p for p in rc.corpus(decoder) if framing != 'binary' or not rc.has_delim(codec.frame('binary', 99, p)[1:-1])]
     while (tot < BOUND[framing] or len(valid) < nvalid or tot < BOUND[framing] + 300) and len(valid) < 400:
+        if foreign_rate and rng.random() < foreign_rate and pool_f:
+            pf = rng.choice(pool_f)
+            valid.append({'u': rng.choice([2, 99, 200]), 'pdu': pf.hex()})
+            tot += len(codec.frame(framing, 99, pf))
+            continue
         p = rng.choice(small)
         valid.append({'u': 17, 'pdu': p.hex()})
         tot += len(codec.frame(framing, 17, p))
@@ -114,8 +124,9 @@ def execute(scn):
            'cell': '%s/%s/per_read=%d/%s' % (framing, scn['decoder'], pr, scn.get('policy', 'reset'))}
     for g in scn['garbage']:
         out['faults']['garbage_' + g['kind']] = out['faults'].get('garbage_' + g['kind'], 0) + 1
-    # obligations: frames that start at or after g_end + B
-    obliged = [i for i, s in enumerate(starts) if s >= g_end + B]
+    # obligations: frames FOR THIS UNIT that start at or after g_end + B
+    own = [i for i in range(len(frames)) if scn['valid'][i]['u'] == 17]
+    obliged = [i for i in own if starts[i] >= g_end + B]
     if not obliged:
         out['inconclusive'] = True
         return out
@@ -124,14 +135,17 @@ def execute(scn):
     want = [bytes.fromhex(scn['valid'][i]['pdu']) for i in obliged if chunk_of[i] >= first_chunk]
     # frames of the same read as the first obliged frame but before it are not obliged: drop leading extras
     got_pdus = [d['pdu'] for d in got]
-    extra_lead = len([i for i in range(len(frames)) if chunk_of[i] == first_chunk and i < obliged[0]])
+    extra_lead = len([i for i in own if chunk_of[i] == first_chunk and i < obliged[0]])
     sig_base = {'property': ID, 'framing': framing, 'decoder': scn['decoder'], 'garbage': '+'.join(kinds),
                 'per_read': pr, 'policy': scn.get('policy', 'reset')}
-    ok = False
-    for skip in range(extra_lead + 1):
-        if got_pdus[skip:] == want:
-            ok = True
-            break
+    # every obliged frame exactly once and in order, nothing else after the first of them: the obliged frames
+    # are a SUFFIX of everything this receiver delivered (what it delivered earlier - frames of the grace
+    # window, possibly late, because a receive call that raised leaves the rest of its read for the next
+    # call - carries no obligation)
+    all_pdus = [d['pdu'] for d in res.delivered]
+    ok = len(all_pdus) >= len(want) and all_pdus[len(all_pdus) - len(want):] == want
+    if ok and any(d['unit'] != 17 for d in res.delivered):
+        ok = False              # a frame for another unit was handed over
     if not ok:
         cls = 'deaf' if len(got_pdus) == 0 else ('frames-lost' if len(got_pdus) < len(want) else 'frames-wrong')
         out['violations'].append({'sig': dict(sig_base, **{'class': cls}),
